@@ -18,6 +18,11 @@
      armor ahead <srcpat> <rbufpat> <nreads> <doc> <hex>...
                                              at most <nreads> Reads, then the producer runs to its next Write:
                                              "<data> <-|eof|E:class> c=<source bytes consumed>"
+     armor aheadg <rbufpat> <nreads> <need> <doc> <hex>...
+                                             the same with a source that returns as much as each Read asks for;
+                                             <need> = the c of "ahead 1 ..." (what a byte-wise source would have
+                                             delivered).  "<data> <end> c=ok": the implementation prints c=over:<n>
+                                             when it consumed more than need + 3*64 KiB
      armor b64 <payload>                     hex of b64_encode
      armor b64d <payload>                    b64_decode
      armor boiler                            hex(start) "." hex(end)
@@ -104,6 +109,14 @@ Definition ahead_run (srcpat rbufpat : list nat) (nreads : nat) (doc : bytes) : 
       bs "x" ++ hex_encode b ++ [SP] ++ rend_print e ++ bs " c=" ++ dec_print (p_consumed (sp_fill (d_p d')))
   end.
 
+Definition aheadg_run (rbufpat : list nat) (nreads : nat) (doc : bytes) : bytes :=
+  match sdec_new [doc] with
+  | NewErr _ e p => bs "x " ++ rend_print (Some (RErr e)) ++ bs " c=ok"
+  | NewOk _ d =>
+      let '(b, e, d') := read_all tks sdec_read nreads (size_fun rbufpat) O d [] in
+      bs "x" ++ hex_encode b ++ [SP] ++ rend_print e ++ bs " c=ok"
+  end.
+
 Definition run (args : list bytes) : bytes :=
   match args with
   | op :: rest =>
@@ -128,6 +141,15 @@ Definition run (args : list bytes) : bytes :=
         | b :: c :: k :: a :: more =>
             match doc_parse a more, list_parse dec_parse_nat b, list_parse dec_parse_nat c, dec_parse_nat k with
             | Some p, Some sp, Some rp, Some k => ahead_run sp rp k p
+            | _, _, _, _ => ERR_BADCASE
+            end
+        | _ => ERR_BADCASE
+        end
+      else if beq op (bs "aheadg") then
+        match rest with
+        | c :: k :: nd :: a :: more =>
+            match doc_parse a more, list_parse dec_parse_nat c, dec_parse_nat k, dec_parse nd with
+            | Some p, Some rp, Some k, Some _ => aheadg_run rp k p
             | _, _, _, _ => ERR_BADCASE
             end
         | _ => ERR_BADCASE
